@@ -88,6 +88,35 @@ def run(prog: Program, ctx: Ctx) -> None:  # noqa: PLR0912,PLR0915
     # (that expansion collects exactly the exposed members, and never an unexpanded wildcard placeholder, is decided on behaviour by the wildcard table
     # R2 and by C06-R8 "no placeholder is left"; a check of the collector's filter text was retired when the collector was renamed and rewritten as a loop)
 
+    # an unexpandable wildcard placeholder of the source module is not a name: `b: from ext import *; y = 1` (ext not loaded), `a: from pkg.b import *`
+    from sa.absint import Native as _Native
+    from sa.absint import Obj as _Obj
+    from sa.absint import Raised as _Raised
+    from sa.tables.aliasgraphs import PackageTable as _PT
+
+    _t = _PT(prog)
+    try:
+        _t.it.steps = 0
+        _coll = _t.it._construct(_t.cc, [], {})
+        _pkg = _t.new("Module", "pkg", filepath=_t.PP("/s/pkg/__init__.py"))
+        _t.setm(_coll, "pkg", _pkg)
+        _ma, _mb = (_t.new("Module", n_, filepath=_t.PP(f"/s/pkg/{n_}.py")) for n_ in "ab")
+        _t.setm(_pkg, "a", _ma)
+        _t.setm(_pkg, "b", _mb)
+        _t.setm(_mb, "ext/*", _t.new("Alias", "ext/*", "ext", lineno=1, endlineno=1))
+        _mb.attrs["imports"]["ext/*"] = "ext"
+        _t.setm(_mb, "y", _t.new("Attribute", "y", lineno=2, endlineno=2))
+        _t.setm(_ma, "pkg/b/*", _t.new("Alias", "pkg/b/*", "pkg.b", lineno=1, endlineno=1))
+        _ma.attrs["imports"]["pkg/b/*"] = "pkg.b"
+        _loader = _Obj(prog.cls(L), {"modules_collection": _coll, "extensions": _Obj(None, {"call": _Native(lambda *_a, **_k: None)})}, label="loader")
+        _t.it.call(_t.fns["expand_wildcards"], _loader, _pkg, external=False)
+        got_ph: object = sorted(_ma.attrs["members"])
+    except _Raised as r_:
+        got_ph = f"raises {r_.exc}"
+    ctx.ob("R1", "wildcard|placeholder of the source module is not imported", got_ph == ["y"],
+           f"b: `from ext import *` (ext not loaded: the placeholder stays) and `y = 1`; a: `from pkg.b import *` -> members of a {got_ph}; expected ['y'] "
+           "(the unexpanded placeholder `ext/*` is not a runtime name)", where(prog.function(f"{L}.expand_wildcards")))
+
     # ------------------------------------------------------------------ R2
     ctx.rule("R2", "expand_wildcards: an existing member is overwritten exactly when the wildcard import sits on a later line (missing line = 0); "
                    "the alias is added iff it is not a self-alias and (the name is new or overwrite)")
